@@ -208,6 +208,7 @@ func evalObs(a *Analysis, rule string, obs []*Observation, allowed func(o *Obser
 		} else {
 			ob.Verdict = Violated
 			ex := sp.Project(bad, show...)
+			ob.Signature = strings.Join(ex, " | ")
 			ob.Detail = fmt.Sprintf("%s can fail: %d feasible valuation(s) outside the allowed set, e.g. {%s}", what, bad.Count(), ex[0])
 			for _, s := range ex {
 				ob.Facts = append(ob.Facts, "offending: "+s)
